@@ -4,15 +4,19 @@
    Histories are arbitrary lists of operations over any number of sessions. *)
 From Coq Require Import String ZArith List Bool.
 Import ListNotations.
-From GMS Require Import Sys.C44SysVarsBase gen.C44Vars Sys.C44SysVars Sys.C44SysVarsProofs Sys.C44SysVarsRegistry.
+From GMS Require Import Sys.C44SysVarsBase gen.C44Vars Sys.C44SysVars Sys.C44SysVarsProofs Sys.C44SysVarsStmt
+  Sys.C44SysVarsRegistry.
 Open Scope Z_scope.
 
-(* every constant default of the generated registry is a valid value of its variable and converts to itself
-   (as a number: some defaults are Go int / int64 where Convert yields int64 / uint64, see _exact_type_fact);
-   bound: the 332 entries with a constant default and a modelled type, minus the one refuted below *)
+(* every default of the generated registry that is a constant of the source (336 of 349; the other 13 are computed at
+   start-up: host name, uuid, collation / character set names, tmpdir, time zone) is a valid value of its variable and
+   converts to itself as SELECT @@x shows it -- all types: bool, int, uint, double, enum, SET, string, types.Uint32 --
+   (as a number: 8 defaults are Go int / int64 where Convert yields int64 / uint64, see _exact_type_fact);
+   _partial: the one entry of [default_known_bad] is excluded, see C44_default_outside_range_fact *)
 Theorem C44_defaults_valid_partial :
   forall sv, In sv vars -> checkable sv = true -> ~ In (v_name sv) default_known_bad ->
-    exists d, convert (v_type sv) (v_default sv) = Ok d /\ gval_same_value d (v_default sv) = true.
+    exists d, convert (v_type sv) (v_default sv) = Ok d /\
+              gval_same_value (shown_t (v_type sv) d) (v_default sv) = true.
 Proof. exact defaults_valid. Qed.
 Print Assumptions C44_defaults_valid_partial.
 
@@ -186,6 +190,142 @@ Theorem C44_user_variable_roundtrip : forall reg st s u v, valid_session st s = 
   (forall y, get_global st' y = get_global st y).
 Proof. exact set_user_roundtrip. Qed.
 Print Assumptions C44_user_variable_roundtrip.
+
+(* ---------- SET-typed variables ---------- *)
+(* every member name of every SET-typed variable of the registry converts to its bit and is shown back as itself *)
+Theorem C44_set_member_names_roundtrip : forall sv, In sv vars -> set_names_fixed sv = true.
+Proof. exact set_names_fixed_all. Qed.
+Print Assumptions C44_set_member_names_roundtrip.
+
+Example C44_sql_mode_roundtrip :
+  let xs := xrun vars x1 [SSet 0 [(TgSession false "sql_mode", SrcVal (GS "ansi_quotes,,ANSI ,"));
+                                  (TgUser "m", SrcBare "sql_mode")]] in
+  shown vars "sql_mode" (match read_bare (base xs) 0 "sql_mode" with RVal v => v | _ => GNil end) = GS "ANSI_QUOTES,ANSI" /\
+  get_user (base xs) 0 "m" = RVal (GS "ANSI_QUOTES,ANSI").
+Proof. exact sql_mode_roundtrip. Qed.
+Print Assumptions C44_sql_mode_roundtrip.
+
+(* ---------- whole SET statements: several assignments, DEFAULT, @@y, PERSIST ---------- *)
+(* one literal assignment is the single-assignment step, so all the theorems above apply to statements *)
+Theorem C44_single_assignment_is_step : forall reg xs s x v,
+  valid_session (base xs) s = true ->
+  (forall sv, lookup reg x = Some sv -> convert (v_type sv) v <> Unm) ->
+  exec_stmt reg xs (SSet s [(TgGlobal x, SrcVal v)]) = lift (pers xs) (step reg (base xs) (SetGlobal s x v)) /\
+  exec_stmt reg xs (SSet s [(TgSession false x, SrcVal v)]) = lift (pers xs) (step reg (base xs) (SetSession s x v)).
+Proof.
+  intros reg xs s x v Hs Hu. split.
+  - exact (single_literal_is_step_global reg xs s x v Hs Hu).
+  - exact (single_literal_is_step_session reg xs s false x v Hs Hu).
+Qed.
+Print Assumptions C44_single_assignment_is_step.
+
+(* a statement refused while planning (unknown name, invalid string literal, reading @@SESSION.y of a GLOBAL-only y,
+   DEFAULT for a user variable) changes nothing, wherever the offending assignment stands *)
+Theorem C44_statement_refused_while_planning_no_effect : forall reg xs s l o,
+  build_all reg l = o -> o <> Accepted ->
+  exec_stmt reg xs (SSet s l) = (xs, o) \/ exec_stmt reg xs (SSet s l) = (xs, Unmodelled).
+Proof. exact build_failure_no_effect. Qed.
+Print Assumptions C44_statement_refused_while_planning_no_effect.
+
+(* the assignments of one SET run in order and the first one that fails while running stops the statement: the result
+   is the state after the accepted prefix (plus the failing assignment's own effect, which is none -- next theorem) *)
+Theorem C44_statement_runs_accepted_prefix : forall reg l1 xs s a l2 xs1 xs2 o,
+  exec_list reg xs s l1 = (xs1, Accepted) -> exec_assign reg xs1 s a = (xs2, o) -> o <> Accepted ->
+  exec_list reg xs s (l1 ++ a :: l2) = (xs2, o).
+Proof. exact exec_list_app_fail. Qed.
+Print Assumptions C44_statement_runs_accepted_prefix.
+
+Theorem C44_failing_assignment_no_effect : forall reg xs s tg src xs',
+  exec_assign reg xs s (tg, src) = (xs', Rejected) -> (forall x, tg <> TgPersist false x) -> xs' = xs.
+Proof. exact failing_assign_no_effect. Qed.
+Print Assumptions C44_failing_assignment_no_effect.
+
+(* facts about the code as it is: SET a = 5, b = <out of range>, c = 1 fails, a keeps 5, b and c are untouched;
+   with an invalid STRING literal instead the statement is refused while planning and a is untouched too *)
+Theorem C44_multi_set_not_atomic_fact :
+  let r := exec_stmt vars x1 (SSet 0 [(TgSession false "wait_timeout", SrcVal (GI KInt8 5));
+                                      (TgSession false "auto_increment_increment", SrcVal (GI KInt8 0));
+                                      (TgSession false "sql_log_bin", SrcVal (GI KInt8 1))]) in
+  snd r = Rejected /\
+  read_bare (base (fst r)) 0 "wait_timeout" = RVal (GI KInt64 5) /\
+  read_bare (base (fst r)) 0 "auto_increment_increment" = RVal (GI KInt64 1) /\
+  read_bare (base (fst r)) 0 "sql_log_bin" = RVal (GI KInt8 0).
+Proof. exact multi_set_not_atomic. Qed.
+Print Assumptions C44_multi_set_not_atomic_fact.
+
+Theorem C44_multi_set_string_literal_atomic_fact :
+  let r := exec_stmt vars x1 (SSet 0 [(TgSession false "wait_timeout", SrcVal (GI KInt8 5));
+                                      (TgSession false "wait_timeout", SrcVal (GS "abc"))]) in
+  snd r = Rejected /\ read_bare (base (fst r)) 0 "wait_timeout" = RVal (GI KInt64 28800).
+Proof. exact multi_set_build_failure_atomic. Qed.
+Print Assumptions C44_multi_set_string_literal_atomic_fact.
+
+(* SET x = DEFAULT assigns the compiled default of x ... *)
+Theorem C44_set_default_assigns_compiled_default : forall reg xs s x sv xs',
+  lookup reg x = Some sv ->
+  exec_assign reg xs s (TgSession false x, SrcDefault) = (xs', Accepted) ->
+  exists v', convert (v_type sv) (v_default sv) = Ok v' /\ read_bare (base xs') s x = RVal v'.
+Proof. exact set_default_assigns_compiled_default. Qed.
+Print Assumptions C44_set_default_assigns_compiled_default.
+
+(* ... which is not the current global value (MySQL's meaning of SET SESSION x = DEFAULT) *)
+Theorem C44_session_default_is_not_current_global_fact :
+  let xs := xrun vars x1 [SSet 0 [(TgGlobal "wait_timeout", SrcVal (GI KInt8 77))];
+                          SSet 0 [(TgSession false "wait_timeout", SrcVal (GI KInt8 5))];
+                          SSet 0 [(TgSession false "wait_timeout", SrcDefault)]] in
+  read_bare (base xs) 0 "wait_timeout" = RVal (GI KInt64 28800) /\ get_global (base xs) "wait_timeout" = GI KInt64 77.
+Proof. exact session_default_is_compiled_default. Qed.
+Print Assumptions C44_session_default_is_not_current_global_fact.
+
+(* SET @@SESSION.x = @@GLOBAL.x: the session value becomes convert(what @@GLOBAL.x shows), the globals do not move;
+   for the numeric and string types that is the global value itself *)
+Theorem C44_copy_global_to_session : forall reg xs s e x xs',
+  exec_assign reg xs s (TgSession e x, SrcGlobal x) = (xs', Accepted) ->
+  exists sv v', lookup reg x = Some sv /\
+    convert (v_type sv) (shown reg x (get_global (base xs) x)) = Ok v' /\
+    read_bare (base xs') s x = RVal v' /\
+    (forall y, get_global (base xs') y = get_global (base xs) y).
+Proof. exact copy_global_to_session. Qed.
+Print Assumptions C44_copy_global_to_session.
+
+Theorem C44_copy_global_to_session_same_value : forall reg xs s e x xs' sv,
+  lookup reg x = Some sv ->
+  match v_type sv with TBool | TInt _ _ _ | TUint _ _ | TDouble _ _ | TString => True | _ => False end ->
+  bounds_ok (v_type sv) = true -> has_type (v_type sv) (get_global (base xs) x) ->
+  exec_assign reg xs s (TgSession e x, SrcGlobal x) = (xs', Accepted) ->
+  read_bare (base xs') s x = RVal (get_global (base xs) x).
+Proof. exact copy_global_to_session_same. Qed.
+Print Assumptions C44_copy_global_to_session_same_value.
+
+(* user variables of every value type: SET @u = <literal | @@y | @@GLOBAL.y | @@SESSION.y | @v> always succeeds and
+   SELECT @u returns exactly the value the right-hand side had (any integer kind, decimal, float, string, NULL) *)
+Theorem C44_user_variable_any_value_any_source : forall reg xs s u src v,
+  valid_session (base xs) s = true -> resolve reg (base xs) s (TgUser u) src = Ok v ->
+  let r := exec_assign reg xs s (TgUser u, src) in
+  snd r = Accepted /\ get_user (base (fst r)) s u = RVal v.
+Proof. exact user_assign_returns_value. Qed.
+Print Assumptions C44_user_variable_any_value_any_source.
+
+(* PERSIST_ONLY never touches running values; PERSIST persists convert(v) and, when it succeeds, the global is convert(v) *)
+Theorem C44_persist_only_keeps_values : forall reg xs s x src xs' o,
+  exec_assign reg xs s (TgPersist true x, src) = (xs', o) -> base xs' = base xs.
+Proof. exact persist_only_keeps_values. Qed.
+Print Assumptions C44_persist_only_keeps_values.
+
+Theorem C44_persist_semantics : forall reg xs s x v xs' o sv v',
+  lookup reg x = Some sv -> convert (v_type sv) v = Ok v' ->
+  exec_assign reg xs s (TgPersist false x, SrcVal v) = (xs', o) ->
+  pers xs' s x = v' /\ (o = Accepted -> get_global (base xs') x = v').
+Proof. exact persist_semantics. Qed.
+Print Assumptions C44_persist_semantics.
+
+(* "rejected without effect" fails for SET PERSIST of a read-only (or SESSION-only) variable: the statement fails
+   after the value has been persisted *)
+Theorem C44_persist_rejected_no_effect_refuted :
+  let r := exec_stmt vars x1 (SSet 0 [(TgPersist false "version", SrcVal (GS "y"))]) in
+  snd r = Rejected /\ pers (fst r) 0 "version" = GS "y" /\ get_global (base (fst r)) "version" = GS "8.0.31".
+Proof. exact persist_rejected_but_persisted. Qed.
+Print Assumptions C44_persist_rejected_no_effect_refuted.
 
 (* non-vacuity: a three-session history over the generated registry where acceptance, conversion, isolation,
    inheritance by a new session, user variables and the four kinds of rejection all occur *)
